@@ -112,7 +112,7 @@ def arm_calls(c, fn_node, externs):
         if sw.get("k") != "SwitchStmt":
             continue
         ce = sim.cond_of(sw)
-        if ce is None or ce[0] != "call" or ce[1] not in ("MAT_ID", "X_ID", "SP_ID"):
+        if ce is None or not cm.is_type_id_expr(c, fn_node, ce):
             continue
         body = sw["c"][-1]
         for labels, stmts in cm.Simulator._switch_arms(sim, body):
@@ -329,6 +329,7 @@ def _norm_typed(t):
     t = re.sub(r"MAT_BUF[IDZ]\b", "MAT_BUF#", t)
     t = re.sub(r"\.(i|d|z)\b", ".#", t)
     t = re.sub(r"\b(int_t|double|complex_t)\b", "#", t)
+    t = re.sub(r"\b(\d+)\.0\b", r"\1", t)          # 0.0 of the floating arms == 0 of the integer arm
     return t
 
 
@@ -564,7 +565,7 @@ def arm_store_rule(rule, c, wrappers):
         sim = cm.Simulator(c, fn)
         for sw in [x for x in cf.walk(node) if x.get("k") == "SwitchStmt"]:
             ce = sim.cond_of(sw)
-            if ce is None or ce[0] != "call" or ce[1] not in ("MAT_ID", "X_ID"):
+            if ce is None or not cm.is_type_id_expr(c, node, ce):
                 continue
             res = {}
             for labels, stmts in sim._switch_arms(sw["c"][-1]):
